@@ -27,6 +27,14 @@ def main():
     try:
         sh(['git', '-C', '/repo', 'worktree', 'add', '--detach', '-q', repo, 'HEAD'])
         r = sh(['git', '-C', repo, 'apply', os.path.abspath(patch)])
+        if r.returncode != 0:
+            # the tree has moved on since the patch was written (a later fix: commit): try a three-way merge
+            r3 = sh(['git', '-C', repo, 'apply', '--3way', os.path.abspath(patch)])
+            if r3.returncode == 0 and not sh(['git', '-C', repo, 'diff', '--name-only', '--diff-filter=U']).stdout.strip():
+                sh(['git', '-C', repo, 'reset', '-q'])
+                r = r3
+            else:
+                sh(['git', '-C', repo, 'checkout', '-q', '--force', 'HEAD'])
         out['applies'] = r.returncode == 0
         if not out['applies']:
             out['apply_output'] = r.stdout[-500:]
